@@ -788,6 +788,13 @@ func init() {
 			return it.call(fr, token.NoPos, fr.fn.Pkg.Func("blockGeneric"), a)
 		},
 
+		// context.WithValue checks key comparability through reflectlite; build the valueCtx directly
+		"context.WithValue": func(it *Interp, fr *frame, a []Value) Value {
+			T := fr.fn.Pkg.Type("valueCtx").Type()
+			var cell Value = Struct{a[0], a[1], a[2]}
+			return Iface{t: types.NewPointer(T), v: &cell}
+		},
+
 		// ---------- os ----------
 		"os.Getpid": func(it *Interp, fr *frame, a []Value) Value { return it.ctx.BV(4242, 64) },
 		"os.Exit": func(it *Interp, fr *frame, a []Value) Value {
